@@ -40,7 +40,16 @@ CHECKS["C14"] = (
     "sub-span) or not, both strands, chromosome mode, chunk-built chromosome mode and chunk-relative mode with a symbolic chunk "
     "offset; adjacent blocks; both modes asked of one object in either order.",
     _NOTE, "DESIGN.md §3 C14")
-for _p in ["C03", "C04", "C05", "C07", "C08", "C09", "C10", "C11", "C13", "C15", "C17", "C18",
+CHECKS["C05"] = (
+    _CH,
+    "Codon locations are compared base by base with an independent reading-frame model for every exon-length vector (1 exon "
+    "1..7, 2 exons 1..4 each, 3-exon representatives; thorough: all 3-exon 1..4 and 2-exon 1..7) x every annotated frame vector "
+    "x both strands with UNBOUNDED symbolic start and gaps (0-bp gaps included); windowed scans with symbolic window; "
+    "construct_frames_from_location with symbolic lengths; fast/codon/cached sequence paths, translation (3 tables x truncate) "
+    "and start/stop predicates against the standard code on a concrete genome (offsets enumerated by the solver).",
+    _NOTE + " Sequence legs: inputs are realised, the body then runs natively; the solver closes the finite input space.",
+    "DESIGN.md §3 C05")
+for _p in ["C03", "C04", "C07", "C08", "C09", "C10", "C11", "C13", "C15", "C17", "C18",
            "C19", "C20"]:
     NOT_APPLICABLE[_p] = "check not built yet (build in progress; see DESIGN.md §3 for the planned solver-based check)"
 NOT_APPLICABLE["C12"] = ("GenBank writer cannot emit a feature on the installed Biopython (SeqFeature(strand=) TypeError), the "
